@@ -16,6 +16,7 @@ import XlModel.CalcCheck
 import XlModel.CalcRef
 import XlModel.CalcFloat
 import XlModel.Lemmas.CalcRender
+import XlModel.Lemmas.CalcPair
 
 namespace XlModel.Props.C08
 open XlModel XlModel.Calc XlModel.Facts.C08 NumOps
@@ -126,6 +127,63 @@ theorem precedence_examples :
     Impl.evalTokens env (render 1 (.bin .mul (.pct (n 200)) (n 3))) = .ok (.num 6 false) ∧
     render 1 (.bin .mul (.bin .add (n 1) (n 2)) (n 3)) =
       [.lpar, .num [49], .infixOp [43], .num [50], .rpar, .infixOp [42], .num [51]] := by
+  decide +kernel
+
+/-- clause "Excel's precedence, associativity" for EVERY pair of binary operators on the raw,
+unparenthesised token stream `a op1 b op2 c` (144 pairs; `a`, `b`, `c` atoms: numbers, text,
+logicals, references, calls, or arbitrary explicitly parenthesised expressions): the machine of
+`evalInfixExp` groups to the left, `(a op1 b) op2 c`, exactly when `op2` does not bind tighter
+than `op1` (equal level ⇒ left associative), and to the right, `a op1 (b op2 c)`, otherwise —
+for every carrier, environment and operand, including which error is reported. -/
+theorem operator_pair_grouping {N : Type} [NumOps N] (env : Str → Option (Impl.CellArg N))
+    (op1 op2 : Op) (a b c : Expr) (ha : a.level = 8) (hb : b.level = 8) (hc : c.level = 8) :
+    Impl.evalTokens env
+        (render 8 a ++ .infixOp op1.sym :: (render 8 b ++ .infixOp op2.sym :: render 8 c)) =
+      if op2.level ≤ op1.level then Impl.evalTree env (.bin op2 (.bin op1 a b) c)
+      else Impl.evalTree env (.bin op1 a (.bin op2 b c)) := by
+  have l1 := Op.level_pos op1
+  have l2 := Op.level_pos op2
+  split
+  · rename_i h
+    rw [← shunting_yard_correct]
+    congr 1
+    have n1 : ¬ (op2.level < 1) := by omega
+    have n2 : ¬ (op1.level < op2.level) := by omega
+    simp only [render, wrap, n1, n2, decide_false, Bool.false_eq_true, if_false]
+    rw [render_atom a ha op1.level, render_atom b hb (op1.level + 1), render_atom c hc (op2.level + 1)]
+    simp [List.append_assoc]
+  · rename_i h
+    rw [← shunting_yard_correct]
+    congr 1
+    have n1 : ¬ (op1.level < 1) := by omega
+    have n2 : ¬ (op2.level < op1.level + 1) := by omega
+    simp only [render, wrap, n1, n2, decide_false, Bool.false_eq_true, if_false]
+    rw [render_atom a ha op1.level, render_atom b hb op2.level, render_atom c hc (op2.level + 1)]
+
+/-- instances of `operator_pair_grouping`: `a-b-c = (a-b)-c`, `a/b/c = (a/b)/c`, `a^b^c = (a^b)^c`
+(left associative), `a&b+c = a&(b+c)`, `a<b&c = a<(b&c)`, `a+b*c = a+(b*c)`, `a*b+c = (a*b)+c` -/
+theorem operator_pair_instances {N : Type} [NumOps N] (env : Str → Option (Impl.CellArg N))
+    (a b c : Expr) (ha : a.level = 8) (hb : b.level = 8) (hc : c.level = 8) :
+    let ts (o1 o2 : Op) := render 8 a ++ .infixOp o1.sym :: (render 8 b ++ .infixOp o2.sym :: render 8 c)
+    Impl.evalTokens env (ts .sub .sub) = Impl.evalTree env (.bin .sub (.bin .sub a b) c) ∧
+    Impl.evalTokens env (ts .div .div) = Impl.evalTree env (.bin .div (.bin .div a b) c) ∧
+    Impl.evalTokens env (ts .pow .pow) = Impl.evalTree env (.bin .pow (.bin .pow a b) c) ∧
+    Impl.evalTokens env (ts .concat .add) = Impl.evalTree env (.bin .concat a (.bin .add b c)) ∧
+    Impl.evalTokens env (ts .lt .concat) = Impl.evalTree env (.bin .lt a (.bin .concat b c)) ∧
+    Impl.evalTokens env (ts .add .mul) = Impl.evalTree env (.bin .add a (.bin .mul b c)) ∧
+    Impl.evalTokens env (ts .mul .add) = Impl.evalTree env (.bin .add (.bin .mul a b) c) := by
+  refine ⟨?_, ?_, ?_, ?_, ?_, ?_, ?_⟩ <;>
+    (rw [operator_pair_grouping env _ _ a b c ha hb hc]; rfl)
+
+/-- non-vacuity on the integer instance, raw token lists: `8/4/2 = 1`, `1&2+3 = "15"`,
+`(1+1)^3^2 = 64` with a parenthesised atom -/
+theorem operator_pair_examples :
+    let env : Str → Option (Impl.CellArg Int) := fun _ => none
+    Impl.evalTokens env [.num [56], .infixOp [47], .num [52], .infixOp [47], .num [50]] = .ok (.num 1 false) ∧
+    Impl.evalTokens env [.num [49], .infixOp [38], .num [50], .infixOp [43], .num [51]] = .ok (.str [49, 53]) ∧
+    Impl.evalTokens env (render 8 (.paren (.bin .add (.num [49]) (.num [49]))) ++ .infixOp Op.pow.sym ::
+      (render 8 (.num [51]) ++ .infixOp Op.pow.sym :: render 8 (.num [50]))) = .ok (.num 64 false) ∧
+    (Expr.paren (.bin .add (.num [49]) (.num [49]))).level = 8 := by
   decide +kernel
 
 /-! ## agreement with the Excel reference on operands -/
